@@ -319,6 +319,15 @@ impl<'a> Parser<'a> {
                 }
             }
 
+            if let Some(span) = self.pending_equals.take() {
+                // The '=' of a split '>=' token was not consumed by the statement
+                errors.push(ParseError {
+                    kind: ParseErrorKind::TrailingCharacters("=".to_owned()),
+                    span,
+                });
+                self.recover_from_error(tokens);
+            }
+
             match self.peek(tokens).kind {
                 TokenKind::Newline => {
                     // Skip over empty lines
@@ -370,6 +379,9 @@ impl<'a> Parser<'a> {
 
     /// Must be called after encountering an error.
     fn recover_from_error(&mut self, tokens: &[Token]) {
+        // The second half of a split '>=' token belongs to the statement we give up on
+        self.pending_equals = None;
+
         // Skip all the tokens until we encounter a newline or EoF.
         while !matches!(
             self.peek(tokens).kind,
@@ -1997,8 +2009,13 @@ impl<'a> Parser<'a> {
         tokens: &'b [Token<'a>],
         token_kind: TokenKind,
     ) -> Option<&'b Token<'a>> {
-        // Handle pending equals from a split '>=' token
-        if token_kind == TokenKind::Equal && self.pending_equals.take().is_some() {
+        // Handle pending equals from a split '>=' token: the '=' is the next token,
+        // nothing else can be matched before it has been consumed.
+        if self.pending_equals.is_some() {
+            if token_kind != TokenKind::Equal {
+                return None;
+            }
+            self.pending_equals = None;
             // Return the previous token (the >=) as a stand-in
             // The span was already recorded when we split it
             return self.last(tokens);
